@@ -613,12 +613,16 @@ func (g *gen) refTarget(ids []string, idx int) string {
 
 // ValGen draws raw (wire-form) values for recipes.
 type ValGen struct {
-	S       Src
-	Scope   *ScopeRecipe
-	Corrupt bool // corrupt one node
-	done    bool
-	depth   int
+	S         Src
+	Scope     *ScopeRecipe
+	Corrupt   bool // corrupt one node
+	done      bool
+	depth     int
+	InProcess bool // values are used in process only (no CBOR transport in between)
 }
+
+// (InProcess, a field of ValGen: the generated values never cross a CBOR transport, so shapes CBOR cannot carry
+// unambiguously may be drawn.)
 
 func (v *ValGen) corruptHere() bool {
 	if !v.Corrupt || v.done {
@@ -919,8 +923,12 @@ func (v *ValGen) Type(t *TypeRecipe) any {
 			case 2:
 				return map[any]any{"a": uint(1), int64(2): []any{int(3)}}
 			case 3:
-				// two raw keys that are one key once normalised
-				return map[any]any{int(1): "from-int", int64(1): "from-int64", "z": true}
+				if v.InProcess {
+					// two raw keys that are one key once normalised (only for values that stay in the process:
+					// CBOR would encode both as the key 1, and which one a decoder keeps is not defined)
+					return map[any]any{int(1): "from-int", int64(1): "from-int64", "z": true}
+				}
+				return map[any]any{int(1): "from-int", int64(2): "from-int64", "z": true}
 			}
 			return map[string]any{"a": int64(1), "b": []any{true}}
 		}
